@@ -20,14 +20,14 @@
    (visitor.rs:282-307)                                      the child), in the order the code performs them.
 
    Traversal facts read off the code (each visit_x is: idx of x := node(x); for each child c in a fixed order:
-   insert(idx of x, node(c)); visit_c(c)), with two exceptions, both modelled:
-   * visit_type2, Type2::Unwrap (parent.rs:434-439) registers [ident] only; [generic_args] of `~name<args>` is neither
-     inserted nor visited  ->  [registered];
-   * visit_type1 with an operator (parent.rs:304-353): insert(Type1, Operator); then visit_operator inserts
-     (Operator, controller Type2) and (Operator, RangeCtlOp) BEFORE visiting anything; visit_rangectlop inserts
-     (RangeCtlOp, ControlOperator) for a control, and then the default visit_range / visit_control_operator
-     visit the TARGET type2 (the other child of the Type1, not yet inserted under it) and then the controller type2;
-     back in visit_type1: insert(Type1, target Type2) and the target is visited a second time.
+   insert(idx of x, node(c)); visit_c(c)), with one exception in the current code, and one historical one:
+   * visit_type1 with an operator (parent.rs, visit_type1 / visit_operator / visit_rangectlop): insert(Type1, Operator);
+     then visit_operator inserts (Operator, controller Type2) and (Operator, RangeCtlOp) BEFORE visiting anything;
+     visit_rangectlop inserts (RangeCtlOp, ControlOperator) for a control, and then the default visit_range /
+     visit_control_operator visit the TARGET type2 (the other child of the Type1, not yet inserted under it) and
+     then the controller type2; back in visit_type1: insert(Type1, target Type2) and the target is visited a second time;
+   * before commit 2a3eb9a, visit_type2's Type2::Unwrap arm registered [ident] only; [generic_args] of `~name<args>`
+     was neither inserted nor visited  ->  [registered false].
    The tree encoding lists the children of a node in the order the visitor handles them
    (Type1: [operator; type2], Operator: [type2; rangectlop], TypeGroupnameEntry: [occur; generic_args; name]).
    The calls node(x) at the head of each visit_x that are not followed by an insert only create a parentless arena
@@ -98,10 +98,10 @@ Definition K_OPERATOR : N := 16.
 Definition K_UNWRAP : N := 111.   (* Type2::Unwrap = 100 + variant 11 *)
 
 (* does the visitor of a node of kind k register (and visit) its i-th child?
-   fx = false: the code as it is (Type2::Unwrap registers its first child only);
-   fx = true : the code after the proposed repair design.d/C20-fix-unwrap-generic-args.patch (every child is registered).
-   The check selects fx by replaying the witness `a = ~b<int>` on the real crate, so that it keeps passing (and keeps
-   comparing exactly) when the repair is applied. *)
+   fx = true : the code as it is (since /repo commit 2a3eb9a every child is registered);
+   fx = false: the code before that repair, where Type2::Unwrap registered its first child (ident) only and the
+               generic arguments of `~name<args>` were never indexed. Kept to document the fixed finding
+               (Props/C20.v: C20_unwrap_args_indexed); the check runs the model with fx = true only. *)
 Definition registered (fx : bool) (k : N) (i : nat) : bool := fx || negb ((k =? K_UNWRAP) && (1 <=? i)%nat).
 
 Section Kids.
